@@ -819,12 +819,17 @@ def run_client_once(ctx, case, observe):
     def readahead_outstanding():
         """The read file has read-ahead requests (prefetch / readv) whose replies nobody has consumed yet, or a helper
         thread is still sending some."""
-        f = rf[0]
-        if f is None:
-            return False
-        with f._prefetch_lock:
-            n = len(f._prefetch_extents)
-        return n > 0 or any(t not in baseline and t is not threading.current_thread() for t in threading.enumerate())
+        if any(t not in baseline and t is not threading.current_thread() for t in threading.enumerate()):
+            return True
+        # (every file the program has opened counts, also one it has closed meanwhile: replies to its read-ahead still arrive)
+        for f in files:
+            try:
+                with f._prefetch_lock:
+                    if len(f._prefetch_extents) > 0:
+                        return True
+            except AttributeError:
+                pass
+        return False
 
     def note_session(kind):
         """A session operation (not on the read file) is about to be issued: record whether read-ahead replies are outstanding."""
